@@ -44,6 +44,7 @@ const (
 	wLock
 	wRLock
 	wWG
+	wQuiesce
 	wDone
 )
 
@@ -180,7 +181,9 @@ func (s *Sched) ready(g *gor, c selCase) bool {
 		if len(ch.buf) < ch.cap {
 			return true
 		}
-		return len(s.partners(g, ch, false)) > 0
+		// direct hand-off to a parked receiver only when nothing is buffered
+		// (a parked receiver takes buffered values first: FIFO)
+		return len(ch.buf) == 0 && len(s.partners(g, ch, false)) > 0
 	}
 	if len(ch.buf) > 0 || ch.closed {
 		return true
@@ -237,6 +240,14 @@ func (s *Sched) enabled(g *gor) bool {
 		return !w.mu.writer
 	case wWG:
 		return w.wg.n == 0
+	case wQuiesce:
+		// enabled only when nothing else (other than environment events) can run
+		for _, h := range s.gs {
+			if h != g && !h.env && h.wait != nil && h.wait.kind != wQuiesce && s.enabled(h) {
+				return false
+			}
+		}
+		return true
 	}
 	return false
 }
@@ -347,7 +358,24 @@ func (g *gor) park(w *waitOp) {
 
 func (g *gor) logStep(op string, pos token.Pos, c int) {
 	s := g.p.sched
-	s.trace = append(s.trace, schedStep{G: g.id, Op: op, Pos: g.p.posStr(pos), Case: c})
+	st := schedStep{G: g.id, Op: op, Pos: g.p.posStr(pos), Case: c}
+	// UPos: the position of the operation in user code (grpchan or harness), i.e.
+	// outside the model package; native replay points are keyed by it
+	if fr := g.p.curFr; fr != nil && fr.g == g {
+		for c := fr; c != nil && c.fn != nil; c = c.caller {
+			if c.fn.Pkg != nil && c.fn.Pkg.Pkg.Path() == apiPkg {
+				continue
+			}
+			if c.fn.Pkg == nil && c.fn.Parent() != nil && c.fn.Parent().Pkg != nil && c.fn.Parent().Pkg.Pkg.Path() == apiPkg {
+				continue
+			}
+			if up := c.curPos(); up != token.NoPos {
+				st.UPos = g.p.posStr(up)
+			}
+			break
+		}
+	}
+	s.trace = append(s.trace, st)
 }
 
 // yield is a scheduling point with no blocking condition.
@@ -387,15 +415,23 @@ func (g *gor) selectOp(cases []selCase, hasDefault bool, opName string, pos toke
 			continue
 		}
 		if c.send {
-			if ch.closed || len(ch.buf) < ch.cap {
-				// buffered send is only possible if no receiver is parked (otherwise
-				// the receiver would have taken from the buffer already); fine.
+			if ch.closed {
 				alts = append(alts, alt{i, nil})
 				continue
 			}
-			for _, pt := range s.partners(g, ch, false) {
-				pt := pt
-				alts = append(alts, alt{i, &pt})
+			if len(ch.buf) == 0 {
+				// nothing buffered: a parked receiver can be served directly
+				pts := s.partners(g, ch, false)
+				for _, pt := range pts {
+					pt := pt
+					alts = append(alts, alt{i, &pt})
+				}
+				if len(pts) > 0 {
+					continue
+				}
+			}
+			if len(ch.buf) < ch.cap {
+				alts = append(alts, alt{i, nil})
 			}
 		} else {
 			if len(ch.buf) > 0 || ch.closed {
